@@ -1,10 +1,12 @@
 (* C12 — containment, overlap and emptiness answers about version constraints are never wrong. *)
 From Coq Require Import List Bool NArith String.
 From PC Require Import Base.Cmp Base.Result Model.Pep440 Spec.Pep440Spec Model.VConstraint
-     Proofs.VersionFacts Proofs.RangeSpec Proofs.RangeAlg Proofs.RangeOps.
+     Proofs.VersionFacts Proofs.RangeSpec Proofs.RangeAlg Proofs.RangeOps Proofs.UnionHull Proofs.UnionExact Proofs.Contain.
 Import ListNotations.
 
-(* full statement, kept visible (unions included); proved below for two VersionRange operands *)
+(* full statement, kept visible (unions included).  Proved: the allows_all half for every constraint shape (C12_allows_all_sound),
+   self-containment for every shape; the allows_any half for two VersionRange operands (the union walk of allows_any and
+   'any iff intersection non-empty' rest on the sortedness of a union's members, which is not proved). *)
 Definition C12_full_statement : Prop :=
   forall a b v x y, allows a v = Ok x -> allows b v = Ok y ->
     forallb (regular1 v) (cbounds a ++ cbounds b) = true ->
@@ -49,3 +51,24 @@ Theorem C12_range_allows_all_self : forall lo hi i j,
   allows_all (VOne (RR lo hi i j)) (VOne (RR lo hi i j)) = true.
 Proof. exact rr_allows_all_self. Qed.
 Print Assumptions C12_range_allows_all_self.
+
+(* Proved, every constraint shape (single versions, ranges, unions on either side, through the containment walk of
+   VersionUnion.allows_all): a yes is never wrong — in the implementation's member-by-member membership [sem], for
+   operands that are [goodc] (well-formed proper bounds without local labels) and every regular probe. *)
+Theorem C12_allows_all_sound : forall a b v, goodc a = true -> goodc b = true -> wf v = true ->
+  regular_c v a = true -> regular_c v b = true ->
+  allows_all a b = true -> sem b v = true -> sem a v = true.
+Proof. exact allows_all_yes_is_right. Qed.
+Print Assumptions C12_allows_all_sound.
+(* each constraint allows all of itself, whatever its members are (no hypothesis at all) *)
+Theorem C12_allows_all_self : forall c, match c with VOne (RV _) => True | _ => allows_all c c = true end.
+Proof. exact allows_all_self. Qed.
+Print Assumptions C12_allows_all_self.
+Theorem C12_allows_all_self_version : forall x, allows_all (VOne (RV x)) (VOne (RV x)) = true.
+Proof. exact allows_all_self_version. Qed.
+Print Assumptions C12_allows_all_self_version.
+Example C12_union_example :
+  exists a b, parse_constraint_text false false ">=1.0,<2.0 || >3.0,<=4.0"%string = Ok a /\
+    parse_constraint_text false false ">=1.5,<1.7 || 3.5"%string = Ok b /\
+    goodc a = true /\ goodc b = true /\ allows_all a b = true /\ allows_all b a = false.
+Proof. do 2 eexists. repeat split; vm_compute; reflexivity. Qed.
